@@ -855,7 +855,7 @@ pub fn property() -> Property {
     Property {
         id: "C17",
         level: "exploration",
-        rule: "generated: histories of insert_proof(h, key_h, premises) / invalidate_handle(h) / is_proven(key_h) on one ProofGraph; random part: 0..9 operations over 2..5 handles; exhaustive parts: every history of exactly N insert/invalidate operations over H handles up to renaming of handles (budget param = 10*H+N), premise sets = all subsets of the other handles that were never invalidated (directly or by losing all justifications), including handles that have no node yet. Oracle: justification-graph model from the statement (invalidate = flag + delete every justification mentioning the handle, repeated for every node left without justification; proven = not flagged and >= 1 justification), compared with get_node(h).valid for all handles after every operation and with is_proven/lookup_by_key at query operations, at the end, and in every-step cases after every operation. Non-trivial: a dependent was inserted before its premise got a node, or a node kept a justification while losing another, or an invalid node was re-proved; distinct by (handle count, observation mode, operation sequence). Handle ids come in six styles by case (small; equal low 32 bits; equal low 16 bits; just below u64::MAX; top bit set; equal high 32 bits). One history in three files some insertions of a handle under a second key `<Name>.alias`; either key is judged only where every reading agrees (a justification inserted under it survives => proven; no surviving justification at all => not proven).",
+        rule: "generated: histories of insert_proof(h, key_h, premises) / invalidate_handle(h) / is_proven(key_h) on one ProofGraph; random part: 0..9 operations over 2..5 handles; exhaustive parts: every history of exactly N insert/invalidate operations over H handles up to renaming of handles (budget param = 10*H+N), premise sets = all subsets of the other handles that were never invalidated (directly or by losing all justifications), including handles that have no node yet. Oracle: justification-graph model from the statement (invalidate = flag + delete every justification mentioning the handle, repeated for every node left without justification; proven = not flagged and >= 1 justification), compared with get_node(h).valid for all handles after every operation and with is_proven/lookup_by_key at query operations, at the end, and in every-step cases after every operation. Non-trivial: a dependent was inserted before its premise got a node, or a node kept a justification while losing another, or an invalid node was re-proved; distinct by (handle count, observation mode, operation sequence). Handle ids come in six styles by case (small; equal low 32 bits; equal low 16 bits; just below u64::MAX; top bit set; equal high 32 bits). One history in three files some insertions of a handle under a second key `<Name>.alias`; either key is judged only where every reading agrees (a justification inserted under it survives => proven; no surviving justification at all => not proven). The object under test is built with new() or with default() in turn (by a hash of the case's data, no draw).",
         assumptions: vec![
             "ProofGraph treats FactHandle values as opaque (hash/equality only), so exhaustive parts enumerate histories up to renaming of handles".into(),
             "premises never name the handle being inserted, and never a handle that was invalidated before (stricter reading of the quantifier); one FactKey per handle, plus (one history in three) a second key `<Name>.alias` under which some of its insertions are filed; the second key is judged only where every reading agrees (a justification inserted under it survives => proven; no surviving justification at all => not proven)".into(),
